@@ -1,4 +1,5 @@
-/- C07 driver: `C07 run <server> <ctype> <date> [op,…]` (model), `C07 read x<wire>` (spec) -/
+/- C07 driver: `C07 run <server> <ctype> <date> [op,…]`, `C07 raw <code> <reason> [[set|add,n,v],…]`,
+   `C07 wsgi <server> <ctype> <code> <reason> [[n,v],…]` (model), `C07 read x<wire>` (spec) -/
 import TornadoModel.Base.Wire
 import TornadoModel.C07.Spec
 import TornadoModel.C25.Drv
@@ -27,6 +28,22 @@ def decOp (v : V) : Option Op := do
 
 def encLines (ls : List Str) : V := .list (ls.map V.ofByteNats)
 
+def decHOp (v : V) : Option HOp :=
+  match v with
+  | .list [.atom "set", n, x] => do pure (.set (← n.cps?) (← x.cps?))
+  | .list [.atom "add", n, x] => do pure (.add (← n.cps?) (← x.cps?))
+  | _ => none
+
+def decPair (v : V) : Option (Str × Str) :=
+  match v with
+  | .list [n, x] => do pure (← n.cps?, ← x.cps?)
+  | _ => none
+
+def encFin (r : Except Err (List Str)) : V :=
+  match r with
+  | .ok lines => .list [.atom "ok", encLines lines, V.ofByteNats (wire lines)]
+  | .error e => .list [C25.Drv.encErr e]
+
 def handle (toks : List String) : String :=
   match toks with
   | ["run", s, c, d, ops] =>
@@ -39,6 +56,17 @@ def handle (toks : List String) : String :=
           | .ok lines => .list [.atom "ok", encLines lines, V.ofByteNats (wire lines)]
           | .error e => .list [C25.Drv.encErr e]]
     | _, _, _, _ => err "bad-arg"
+  | ["raw", c, r, hops] =>
+    match (V.parse c >>= V.int?), (V.parse r >>= V.cps?), (V.parse hops >>= V.list? >>= (·.mapM decHOp)) with
+    | some c, some r, some hops =>
+      let x := rawResponse c r hops
+      ok [.list (x.1.map C25.Drv.encOut), encFin x.2]
+    | _, _, _ => err "bad-arg"
+  | ["wsgi", s, ct, c, r, hs] =>
+    match (V.parse s >>= V.cps?), (V.parse ct >>= V.cps?), (V.parse c >>= V.int?), (V.parse r >>= V.cps?),
+          (V.parse hs >>= V.list? >>= (·.mapM decPair)) with
+    | some s, some ct, some c, some r, some hs => ok [.list [], encFin (wsgiResponse s ct c r hs)]
+    | _, _, _, _, _ => err "bad-arg"
   | ["read", w] =>
     match V.parse w >>= V.byteNats? with
     | some bs =>
